@@ -354,10 +354,12 @@ func sysRunCase(c *sysCase) []string {
 			err = cl.SubscribePredefined(uint16(atoi(a[0])), uint8(atoi(a[1])), handler("#pre"+a[0]))
 		case "unsubscribe":
 			err = cl.Unsubscribe(string(sysUnhex(a[0])))
-		case "publish":
-			err = cl.Publish(string(sysUnhex(a[0])), sysUnhex(a[2]), uint8(atoi(a[1])), false)
-		case "publishpre":
-			err = cl.PublishPredefined(uint16(atoi(a[0])), sysUnhex(a[2]), uint8(atoi(a[1])), false)
+		case "publish", "publishr":
+			err = cl.Publish(string(sysUnhex(a[0])), sysUnhex(a[2]), uint8(atoi(a[1])), op == "publishr")
+		case "publishpre", "publishprer":
+			err = cl.PublishPredefined(uint16(atoi(a[0])), sysUnhex(a[2]), uint8(atoi(a[1])), op == "publishprer")
+		case "unsubscribepre":
+			err = cl.UnsubscribePredefined(uint16(atoi(a[0])))
 		case "ping":
 			err = cl.Ping()
 		case "inject":
